@@ -6,7 +6,7 @@
 #include <inttypes.h>
 
 static vh_rng_t rng;
-#define MAXK 16
+#define MAXK 48
 static vh_key_t K[MAXK];
 static int nk;
 static jwk_set_t *sets[2];
@@ -202,6 +202,7 @@ int main(int argc, char **argv)
 			nk++;
 			s += n; if (*s == ',') s++;
 		}
+		if (*s) vh_harness_fail("more than %d keys in the key list", MAXK);
 	}
 	for (int p = 0; p < 2; p++) {
 		vh_set_prov(p);
